@@ -153,7 +153,39 @@ def analyse(r, exe, mode, out, rc, tag, drv, cands):
     return stats, lines
 
 
+def do_replay(path):
+    """re-run the scenario recorded in a replay file alone (same seed, same build variant); exit 1 if it fails again.
+    NB: schedules are not reproducible exactly -- the scenario re-draws the same inputs and delays, the OS the interleaving."""
+    import json
+    d = json.load(open(path))
+    txt = json.dumps(d)
+    m = re.search(r"seed=(\d+) scenario=(\w+):(\d+)", txt)
+    variant = "tsan" if "-tsan-" in os.path.basename(path) else "rel"
+    mode = "quick"
+    mm = re.search(r"c18_shared (quick|thorough|tsan)", txt)
+    if mm:
+        mode = mm.group(1)
+    exe = vlib.build_harness("c18_shared", variant)
+    env = dict(TSAN_ENV, VERIF_SEED=str(d.get("seed", m.group(1) if m else 20260926)))
+    args = [exe, mode] + (["%s:%s" % (m.group(2), m.group(3))] if m else [])
+    bad = 0
+    for attempt in range(5):
+        rc, out = vlib.sh(args, timeout=3000, env=env)
+        fails = [l for l in out.split("\n") if l.startswith("FAIL ") or "WARNING: ThreadSanitizer" in l or l.startswith("SUMMARY: ThreadSanitizer")]
+        print("replay attempt %d: exit %d, %d failing lines" % (attempt, rc, len(fails)))
+        for l in fails[:6]:
+            print("  " + l[:600])
+        if fails or rc != 0:
+            bad += 1
+            break
+    if bad:
+        print("VIOLATION property=C18 replay=%s" % path)
+    return 1 if bad else 0
+
+
 def run(tier, replay=None):
+    if replay:
+        return do_replay(replay)
     r = vlib.Run("C18", tier)
     for old in glob.glob(os.path.join(vlib.OUTDIR, "replays", "C18-%d-*.json" % r.seed)):  # replays of an earlier run with this seed
         os.remove(old)
